@@ -99,6 +99,12 @@ def run(chk):
             continue
         v = rng.choice([1.0, 2.5, -3.0, 0.0, 1e-6, 4.2e7, rng.uniform(0.1, 100)])
         cases.append(dict(kind="random", v=v, u=u))
+    # registry candidates: products with a prefix on every factor, sizes from 1e-45 to 1e45 in base units
+    for _ in range(600 if quick else 6000):
+        u = gen.registry_product()
+        if u is None:
+            continue
+        cases.append(dict(kind="registry-product", v=rng.choice([1.0, 6.0, 2.5, -3.0, rng.uniform(0.1, 100)]), u=u))
     lines = []
     for c in cases:
         q = qtylib.rpn_q(qtylib.f2bits(c["v"]), c["u"])
@@ -254,7 +260,8 @@ def run(chk):
         "call_site_programs_checked": site_checked, "explicit_conversions_through_interpret": len(convs),
         "model_evaluations": len(items), "model_mismatches": len(mism), "model_order_only_differences": order_only,
         "model_not_compared_guard": len(oos), "panics_predicted_by_model": len(known_panics),
-        "oracle_failures": len(failing), "relative_tolerance": REL,
+        "oracle_failures": len(failing), "oracle_failure_kinds": dict(collections.Counter(c["kind"] for c, _ in failing)),
+        "relative_tolerance": REL,
         "samples": [{"value": cases[i]["v"], "unit": qtylib.show_unit(cases[i]["u"]), "implementation": cases[i]["obs"]}
                     for i in (0, len(cases) // 2, len(cases) - 1)],
     })
